@@ -17,6 +17,12 @@ type registration struct {
 	table *types.Var
 	key   ssa.Value // nil for dkgRunning
 	instr ssa.Instruction
+	// a registration performed by a helper that takes the key as a parameter and is called from several
+	// places counts once per call: instr is then the call, key its argument (pairing with the release is
+	// the caller's business); inHelper marks the insertion inside such a helper (atomicity and refusal
+	// are the helper's business)
+	lifted   bool
+	inHelper bool
 }
 
 // execEdges: functions that fn may start (static calls, go/defer targets,
@@ -227,6 +233,22 @@ func (t *thrModel) registrations() []registration {
 	var out []registration
 	for _, f := range []*types.Var{t.fSyncTab, t.fRBCTab, t.fClsTab} {
 		for _, mu := range mapUpdatesOfField(t.fns, f) {
+			fn := mu.Parent()
+			noParamLook++
+			root := strip(t.sl.rootOf(mu.Key))
+			noParamLook--
+			if p, ok := root.(*ssa.Parameter); ok && p.Parent() == fn && helperCall(fn) == nil {
+				if cs := staticCallsTo(t.fns, fn); len(cs) >= 2 {
+					idx := paramIndex(p)
+					for _, c := range cs {
+						if idx >= 0 && idx < len(c.Common().Args) {
+							out = append(out, registration{table: f, key: c.Common().Args[idx], instr: c.(ssa.Instruction), lifted: true})
+						}
+					}
+					out = append(out, registration{table: f, key: mu.Key, instr: mu, inHelper: true})
+					continue
+				}
+			}
 			out = append(out, registration{table: f, key: mu.Key, instr: mu})
 		}
 	}
@@ -294,6 +316,9 @@ func checkC12(c *Ctx) {
 		return false
 	})
 	for _, r := range regs {
+		if r.inHelper {
+			continue // paired per call site (the lifted registrations)
+		}
 		fn := r.instr.Parent()
 		fname := FuncName(fn)
 		construct := "registration into " + r.table.Name()
@@ -422,6 +447,9 @@ func checkC12(c *Ctx) {
 
 	// ------------------------------------------------------------------ L1
 	for _, r := range regs {
+		if r.lifted {
+			continue
+		}
 		// refusing guard: registration dominated by the not-present arm of a lookup of the same table whose present arm returns an error
 		var test ssa.Instruction
 		for _, f := range FactsAt(r.instr) {
@@ -448,10 +476,111 @@ func checkC12(c *Ctx) {
 			"both inside one exclusive section of Scheme.lock", "the test that refuses a duplicate and the insertion are not in one exclusive critical section: two concurrent calls can both pass the test")
 	}
 
+	// ------------------------------------------------------------------ L2: a refused call leaves the table as it was
+	const L2 = "C12.L2"
+	c.Rule(L2, "an existence test that can refuse the call guards the insertion (a refused call modifies nothing)", 1)
+	errT := types.Universe.Lookup("error").Type()
+	returnsErrorUnder := func(fn *ssa.Function, holds func(f Fact) bool) bool {
+		for _, in := range instrsOf(fn) {
+			ret, ok := in.(*ssa.Return)
+			if !ok {
+				continue
+			}
+			nonNilErr := false
+			for i := range ret.Results {
+				rv := retResult(ret, i)
+				if types.Identical(rv.Type(), errT) && !isNilConst(rv) {
+					nonNilErr = true
+				}
+			}
+			if nonNilErr && hasFact(FactsAt(ret), holds) {
+				return true
+			}
+		}
+		return false
+	}
+	nL2 := 0
+	for _, r := range regs {
+		if r.key == nil || r.lifted {
+			continue
+		}
+		fn := r.instr.Parent()
+		for _, in := range instrsOf(fn) {
+			lk, ok := in.(*ssa.Lookup)
+			if !ok || !lk.CommaOk || !isLoadOfField(lk.X, r.table) || !(sameValue(lk.Index, r.key) || t.sl.sameRoot(lk.Index, r.key)) {
+				continue
+			}
+			var flag ssa.Value
+			if refs := lk.Referrers(); refs != nil {
+				for _, q := range *refs {
+					if e, ok := q.(*ssa.Extract); ok && e.Index == 1 {
+						flag = e
+					}
+				}
+			}
+			if flag == nil {
+				continue
+			}
+			isFlagTrue := func(v ssa.Value) func(f Fact) bool {
+				return func(f Fact) bool { return f.Op == 0 && f.True && stripNoParam(f.Bool) == v }
+			}
+			// does a found entry make the call fail?  in this function …
+			refuses := returnsErrorUnder(fn, isFlagTrue(flag))
+			// … or in a caller that is handed the flag
+			if !refuses {
+				for _, in2 := range instrsOf(fn) {
+					ret, ok := in2.(*ssa.Return)
+					if !ok {
+						continue
+					}
+					for i := range ret.Results {
+						if stripNoParam(retResult(ret, i)) != flag {
+							continue
+						}
+						for _, cs := range staticCallsTo(t.fns, fn) {
+							cv, ok := cs.(*ssa.Call)
+							if !ok {
+								continue
+							}
+							var res ssa.Value = cv
+							if len(ret.Results) > 1 {
+								res = nil
+								if refs := cv.Referrers(); refs != nil {
+									for _, q := range *refs {
+										if e, ok := q.(*ssa.Extract); ok && e.Index == i {
+											res = e
+										}
+									}
+								}
+							}
+							if res != nil && returnsErrorUnder(cs.Parent(), isFlagTrue(res)) {
+								refuses = true
+							}
+						}
+					}
+				}
+			}
+			if !refuses {
+				continue
+			}
+			nL2++
+			guarded := hasFact(FactsAt(r.instr), func(f Fact) bool { return f.Op == 0 && !f.True && stripNoParam(f.Bool) == flag })
+			c.Check(guarded, L2, FuncName(fn), "insertion into "+r.table.Name()+" only when the refusing test found nothing", m.Pos(r.instr.Pos()),
+				"dominated by the not-found arm of the lookup whose found arm makes the call fail",
+				"the table is written before (or regardless of) the outcome of the test that refuses a duplicate: the refused call has already replaced the running session's handler with its own, which never runs — the running session stops receiving its messages")
+		}
+	}
+	if nL2 == 0 {
+		c.Bad(L2, "threshold", "refusing existence test", "-", "no registration is preceded by an existence test that can refuse the call (a duplicate topic must be refused)")
+	}
+
 	// ------------------------------------------------------------------ O2: only the admitted call releases
 	const O2 = "C12.O2"
 	c.Rule(O2, "a release in the API entry is armed only after its own admission succeeded", 1)
 	for _, r := range regs {
+		if r.lifted {
+			continue
+		}
 		// refusing registrations (test-and-insert that returns an error when present)
 		refusing := false
 		for _, f := range FactsAt(r.instr) {
